@@ -120,6 +120,24 @@ SPECS["C06"] = dict(
                 budget={"quick": 60, "thorough": 600})],
 )
 
+SPECS["C14"] = dict(
+    level="model_checking",
+    engine="E3 evx",
+    state_based=True,
+    technique="exhaustive enumeration of fault placements (<=k faults) on the real transports under an exact virtual clock",
+    claim="For every placement of up to 2 (quick) / 3 (thorough) faults from {dial refused, dial never completes, silent server, half length prefix, half body, garbage, FIN, "
+          "abort, stalled write} relative to dial, write, reply and idle periods, on the pipelined TCP/UDP and one-at-a-time TCP transports (DoH/DoQ over scripted "
+          "RoundTripper / quic connection): every exchange returns by its deadline on the exact virtual clock, stale pooled connections are survived in zero virtual time "
+          "when a healthy server is reachable, waiters are released the instant their connection dies, redials are bounded and no call returns (nil, nil).",
+    trusted="scripted in-memory connections / RoundTripper / quic connection replace kernel, net/http and quic-go; DoT is the same transport code over a TLS conn.",
+    rule="see evidence rule written by the harness",
+    assumptions=["<=2 warm pooled connections", "'scheduling slack' is zero on the virtual clock"],
+    parts=[dict(name="stream", pkg="internal/upstream/transport", run="TestVerifC14", go="go1.26", env=E3ENV, gomaxprocs=1, engines=E3ENGINES,
+                files=dict(TRANSPORT_COMMON, **{"harness/transport/zz_verif_c14_test.go": "internal/upstream/transport/zz_verif_c14_test.go"}),
+                params={"quick": {"FAULTS": 2}, "thorough": {"FAULTS": 4}},
+                budget={"quick": 60, "thorough": 600})],
+)
+
 
 # --------------------------------------------------------------------------------------------
 # Properties not (yet) claimed. Kept current: every property without a SPECS entry must be here.
